@@ -44,10 +44,112 @@ class Models:
     def note(self, name):
         self.used.add(name)
 
+    def buffers(self, m, st, fid, callee, c, argv):
+        if not argv:
+            return None
+        one = lambda v: [(None, v)]
+        try:
+            b = m.deref(st, argv[0])
+        except Stuck:
+            return None
+        if b is None or b[0] != 'buf':
+            return None
+        last = re.sub(r'::<.*$', '', callee.split('>::')[-1] if '>::' in callee else callee.split('::')[-1])
+        last = last.split('::')[-1]
+        n, guar, ver = b[1], b[2], b[3]
+        if last in ('into_iter', 'iter', 'copied', 'cloned', 'to_vec', 'clone', 'collect', 'as_slice', 'as_mut_slice', 'to_owned', 'from_iter', 'into_inner', 'unwrap'):
+            self.note('sample buffer: %s keeps the sequence (abstract buffer; order and length preserved)' % last)
+            return one(b)
+        if last in ('deref', 'deref_mut', 'as_ref', 'as_mut', 'borrow', 'borrow_mut') and argv[0][0] == 'ref':
+            return one(argv[0])
+        if last in ('len',):
+            return one(('i', n))
+        if last == 'is_empty':
+            return one(('b', T.mk('ieq', n, T.iconst(0))))
+        def store(nb):
+            if argv[0][0] != 'ref':
+                raise Stuck('in-place buffer operation on a non-reference')
+            r_ = argv[0]
+            while True:
+                inner = m.read(st, (r_[1], r_[2]), list(r_[3]))
+                if inner[0] != 'ref':
+                    break
+                r_ = inner
+            m.write(st, (r_[1], r_[2]), list(r_[3]), nb)
+        def ascending(clos):
+            if clos is None:
+                return True
+            try:
+                f = m.closure_fn(clos)
+            except Stuck:
+                return False
+            body = '\n'.join('\n'.join(l) for l in f.blocks.values())
+            calls = re.findall(r'= (<[^\n]*?>::\w+|[\w:<>]+::unwrap)(?:::<[^\n(]*>)?\(([^\n]*?)\) ->', body)
+            cmp_ok = [a for cn, a in calls if re.search(r' as (PartialOrd|Ord)>::(partial_cmp|cmp)$', cn)]
+            other = [cn for cn, a in calls if not re.search(r' as (PartialOrd|Ord)>::(partial_cmp|cmp)$', cn) and not cn.endswith('unwrap')]
+            return len(cmp_ok) == 1 and not other and re.fullmatch(r'(?:copy|move) _2, (?:copy|move) _3', cmp_ok[0].strip()) is not None
+        if last in ('sort_by', 'sort_unstable_by', 'sort', 'sort_unstable'):
+            clos = argv[1] if len(argv) > 1 else None
+            if ascending(clos):
+                self.note('sample buffer: %s with the ascending partial_cmp comparator -> every position holds its order statistic' % last)
+                store(('buf', n, 'all', ver + 1))
+            else:
+                self.note('sample buffer: %s with an unrecognised comparator -> no position guaranteed' % last)
+                store(('buf', n, frozenset(), ver + 1))
+            return one(('unit',))
+        if last in ('select_nth_unstable_by', 'select_nth_unstable'):
+            idx = argv[1]
+            clos = argv[2] if len(argv) > 2 else None
+            if idx[0] != 'i':
+                raise Stuck('select_nth index')
+            self.note('sample buffer: %s(i) guarantees position i only (earlier guarantees at other positions are lost)' % last)
+            g = 'all' if guar == 'all' and ascending(clos) else (frozenset([idx[1]]) if ascending(clos) else frozenset())
+            inb = T.mk('ilt', idx[1], n)
+            # the returned (&mut [T], &mut T, &mut [T]) is not modelled
+            st_alts = []
+            store(('buf', n, g, ver + 1))
+            return [(inb, ('opaque', 'select_nth result')), (T.not_(inb), ('panic', 'select_nth_unstable: index out of bounds'))]
+        if last in ('index', 'index_mut', 'get_unchecked', 'get_unchecked_mut') and argv[0][0] == 'ref' and len(argv) > 1 and argv[1][0] == 'i':
+            r_ = argv[0]
+            while True:
+                inner = m.read(st, (r_[1], r_[2]), list(r_[3]))
+                if inner[0] != 'ref':
+                    break
+                r_ = inner
+            inb = T.mk('ilt', argv[1][1], n)
+            return [(inb, ('ref', r_[1], r_[2], tuple(r_[3]) + (('idx', argv[1][1]),))), (T.not_(inb), ('panic', 'index out of bounds'))]
+        raise Stuck('sample buffer operation %s is not modelled' % callee)
+
     def dispatch(self, m, st, fid, callee, argv):
         c = strip_generics(callee)
         d = lambda v: m.deref(st, v)
         one = lambda v: [(None, v)]
+
+        # ---------------- short concrete iterators (Option::into_iter, chain, next): a list of values
+        if argv:
+            a0 = argv[0]
+            try:
+                a0d = d(a0)
+            except Stuck:
+                a0d = None
+            lastseg = re.sub(r'::<.*$', '', callee.split('>::')[-1] if '>::' in callee else callee.split('::')[-1]).split('::')[-1]
+            as_list = lambda v: (list(v[3]) if v[2] == 1 else []) if (v is not None and v[0] == 'adt' and v[1] == 'Option' and isinstance(v[2], int)) else (list(v[3]) if (v is not None and v[0] == 'adt' and v[1] == 'ListIter') else None)
+            if lastseg == 'into_iter' and a0d is not None and a0d[0] == 'adt' and a0d[1] in ('Option', 'ListIter') and as_list(a0d) is not None and re.search(r'Option<|option::IntoIter|Chain<', callee):
+                self.note('Option / chain iterators over concrete Some/None: explicit value list')
+                return one(('adt', 'ListIter', 0, as_list(a0d)))
+            if lastseg == 'chain' and a0d is not None and as_list(a0d) is not None and len(argv) == 2 and as_list(d(argv[1])) is not None:
+                return one(('adt', 'ListIter', 0, as_list(a0d) + as_list(d(argv[1]))))
+            if lastseg == 'next' and a0[0] == 'ref' and a0d is not None and a0d[0] == 'adt' and a0d[1] == 'ListIter':
+                items = list(a0d[3])
+                if not items:
+                    return one(none())
+                m.write(st, (a0[1], a0[2]), list(a0[3]), ('adt', 'ListIter', 0, items[1:]))
+                return one(some(items[0]))
+
+        # ---------------- abstract sample buffers (quantile entry points): see Machine.buf_elem
+        r = self.buffers(m, st, fid, callee, c, argv)
+        if r is not None:
+            return r
 
         # ---------------- statrs oracles
         if re.search(r'\bStudentsT::new$', c):
@@ -259,6 +361,21 @@ class Models:
                          and f.ret.replace(' ', '') == dst.replace(' ', '')]
                 if len(cands) == 1:
                     return ('push', cands[0], argv)
+                if not cands:
+                    # generic impl `From<X<T>> for Y<T>` instantiated at a concrete element type
+                    nz = lambda t: re.sub(r'\b\w+::', '', t.replace(' ', ''))
+                    gen = []
+                    for f in m.byname.get('from', []):
+                        if not f.args or not re.search(r'\bT\b', f.args[0][1]):
+                            continue
+                        pa = re.escape(nz(f.args[0][1])).replace('T', 'T')
+                        pa = re.sub(r'\bT\b', r'(?P<t>\\w+)', pa, count=1)
+                        pa = re.sub(r'\bT\b', r'(?P=t)', pa)
+                        mt = re.fullmatch(pa, nz(src))
+                        if mt and re.sub(r'\bT\b', mt.group('t'), nz(f.ret)) == nz(dst):
+                            gen.append(f)
+                    if len(gen) == 1:
+                        return ('push', gen[0], argv)
                 v = d(argv[0])
                 norm = lambda t: re.sub(r'\b\w+::', '', t.replace(' ', ''))
                 if re.match(r'^[A-Z]\w?$', src) and v[0] == 'f' and not re.match(r'^(f64|f32|[A-Z])$', norm(dst)):
